@@ -321,3 +321,64 @@ def _no_other_set_iteration(mi, fn):
 
 
 contract(f"{U}.ScaffoldNamer.__init__", properties=("C17",), custom=staticmethod(_no_other_set_iteration))(type("_", (), {}))
+
+
+# --- C10: "unlocs / haplotigs ... numbered so that numbers follow non-increasing length" ---------------------------------
+
+
+def _length_of(st, ref):
+    """Scaffold.length of an object that may be an OverlapResult (which overrides it)"""
+    from pyvc.spec import CLASSES, ObjView, class_map
+
+    sc = ObjView(st, ref, "Scaffold")
+    orr = ObjView(st, ref, "OverlapResult")
+    return z3.If(class_map(st)[ref] == CLASSES["OverlapResult"]["id"], orr.end - orr.start + 1, sc.rows.cum(sc.rows.len))
+
+
+@contract(f"{U}.ScaffoldNamer.rename_by_size", properties=("C10",))
+class _:
+    # the names the scaffolds carry (handed out in order of appearance: ..._1, ..._2, ...) are redistributed so that
+    # the k-th name goes to the k-th longest scaffold: ranked by size, same set of names, nothing else changes
+    params = {"self": TRef("ScaffoldNamer"), "scaffolds": TList(TRef("Scaffold"))}
+    result = NONE
+    ghost_locals = {"g_by_size": TList(TRef("Scaffold"))}
+
+    @staticmethod
+    def requires(o):
+        scs = o.scaffolds
+        return [("objects", forall(lambda k: z3.Implies(z3.And(0 <= k, k < scs.len), z3.And(scs[k].z >= 1, scs[k].z < o.alloc)))),
+                ("distinct", forall2(lambda a, b: z3.Implies(z3.And(0 <= a, a < b, b < scs.len), scs[a].z != scs[b].z)))]
+
+    modifies = staticmethod(lambda o: [("map", "H.Scaffold.name"), ("fresh-lists", STR), ("fresh-lists", TRef("Scaffold")), ("alloc",)])
+
+    @staticmethod
+    def ghost_exit(o, n, res, st):
+        raw = n.raw("by_size")
+        if raw is not None:
+            st.frames[0].vars["g_by_size"] = raw
+
+    @staticmethod
+    def ensures(o, n, res):
+        scs = o.scaffolds
+        if n.raw("g_by_size") is None:
+            return [("nothing-to-rename", scs.len == 0)]
+        bs = n.g_by_size
+        st0 = o.state
+        return [
+            ("same-scaffolds", bs.len == scs.len),
+            ("ranked-by-size", forall2(lambda a, b: z3.Implies(z3.And(0 <= a, a < b, b < bs.len), _length_of(st0, bs[a].z) >= _length_of(st0, bs[b].z)))),
+            ("k-th-name-to-the-k-th-longest", forall(lambda k: z3.Implies(z3.And(0 <= k, k < bs.len), bs[k].name == scs[k].name))),
+        ]
+
+    loops = {
+        0: LoopSpec(
+            kind="for",
+            inv=lambda v, e, o: (lambda bs, names, i: [
+                ("counter", z3.And(0 <= i, i <= bs.len, bs.len == names.len, names.len == o.scaffolds.len)),
+                ("lists", z3.And(bs.z == e.by_size.z, names.z == e.names.z, bs.arr == e.by_size.arr, names.arr == e.names.arr, bs.hi == e.by_size.hi, names.hi == e.names.hi,
+                                 bs.lo == 0, names.lo == 0)),
+                ("renamed-so-far", forall(lambda k: z3.Implies(z3.And(0 <= k, k < i), bs[k].name == names[k]))),
+            ])(v.by_size, v.names, v._it0),
+            frame=lambda v, e: {"$free": ["H.Scaffold.name"]},
+        )
+    }
